@@ -125,7 +125,7 @@ def jtext(rng, v, ws):
 class C09(Prop):
     id = "C09"
     props = "C09_Props"
-    coq_files = ("Base", "C09_Consts", "C09_Model", "C09_Spec", "C09_Proofs", "C09_ProofsW", "C09_ProofsJ", "C09_ProofsS", "C09_Props")
+    coq_files = ("Base", "C09_Consts", "C09_Model", "C09_Spec", "C09_Proofs", "C09_ProofsW", "C09_ProofsJ", "C09_ProofsS", "C09_ProofsC", "C09_Props")
     models = ("C09_Model",)
     consts = ("int", "cc")
     packages = {"int": "internal", "cc": "internal/app/connectconformance"}
@@ -135,29 +135,43 @@ class C09(Prop):
             "readDelimitedMessageRaw (c09.raw), ReadDelimitedMessage (c09.read), codec.NewDecoder(..).DecodeNext binary (c09.dec) and JSON "
             "(c09.json, c09.jsonrt) until the first error: ALL compositions into reads of every small stream (<= 12 bytes quick, <= 14 thorough) "
             "and of every truncation of it; random streams of 0-5 messages (sizes 0,1,3,4,5,127,128,<=4k) with byte-by-byte, boundary-aligned, "
-            "frame-spanning and zero-length-read schedules, every truncation point of medium streams; limits 0..16 MiB with prefixes limit, "
-            "limit+1, 2^31, 2^32-1 (buffer requests and allocation volume watched); stalled peers evaluated concurrently with a 300 ms timeout. "
-            "Compared: message bytes, error kind, unread byte count, the three counts of a timeout. non-trivial = at least one message "
-            "delivered or an error other than a clean end")
+            "frame-spanning and zero-length-read schedules, every truncation point of medium streams; limits 0..16 MiB with prefixes limit-1, limit, "
+            "limit+1, 2^24, 2^31, 2^32-1 (largest buffer handed to Read must stay within max(4, limit); allocation volume measured only when the "
+            "stream announces a length ABOVE the limit); stalled peers evaluated concurrently with a 300 ms timeout. Writer side: "
+            "writeDelimitedMessageRaw / WriteDelimitedMessage / protoEncoder.Encode on a scripted io.Writer that fails after `room` bytes, every "
+            "failure point of small streams (c09.wsink), encode -> pipe -> decode in both directions with the writer failing anywhere (c09.pipe), "
+            "jsonEncoder.Encode incl. the dropped newline error (c09.jsonwrite). Compared: message bytes, error kind, unread byte count, the three "
+            "counts of a timeout, bytes on the wire, number of successful Encode calls. non-trivial = at least one message delivered or an error "
+            "other than a clean end")
     trusted_base = ("Coq 8.16.1 kernel", "extraction (ExtrOcamlBasic only) + ocaml/driver.ml",
-                    "vlib generators/comparator, Go overlay harness incl. the scripted reader (same semantics as C09_Model.src_read)",
+                    "vlib generators/comparator, Go overlay harness incl. the scripted reader and writer (same semantics as C09_Model.src_read / sink_write)",
                     "modelled not verified: proto.Marshal/Unmarshal, protojson, the goroutine/timer of the timeout path, "
-                    "encoding/json's scanner (an oracle in the JSON theorems; a bracket-depth scanner stands in for it when the model is run)")
+                    "encoding/json's scanner (an oracle in the JSON theorems; a bracket-depth scanner stands in for it when the model is run, and "
+                    "for that scanner the stability hypothesis is proved)")
     assumptions = ("message lengths are below 2^32 (the prefix is uint32(len))",
                    "a stalled peer stalls for good (the documented completion race exactly at the deadline is not explored)",
-                   "JSON variant: the scanner finds the end of each written value as soon as its last byte is buffered, reports a proper "
-                   "prefix of value+newline as incomplete, and does not depend on the bytes after a complete value (hypotheses of the Section, "
-                   "exercised by the differential run, not proved of encoding/json); top-level scalars are outside the modelled domain")
+                   "a writer that failed keeps failing (closed pipe); transient write errors are not modelled",
+                   "JSON variant: hypotheses on the scanner oracle (scanner_ok: a written value is recognised as soon as its last byte is buffered, "
+                   "whatever follows, and no proper prefix of it is; scanner_skips_newline; scanner_stable: a verdict is not revised when more bytes "
+                   "arrive) are exercised by the differential run, not proved of encoding/json; top-level scalars are outside the modelled domain; "
+                   "the JSON decoder has no size limit and no timeout (a stalled peer blocks it), as in the code")
 
     level_text = ("Machine-checked proof (Coq) that the model of timeoutDelimitedReader.read / readDelimitedMessageRaw / io.ReadFull-based "
-                  "protoDecoder returns exactly the written message sequence for all message lists and all read schedules, reports every cut "
-                  "inside a prefix or body as unexpected EOF, rejects an oversize length with the source exactly past the prefix, and reports "
-                  "the exact progress counts when the peer stalls; JSON variant proved relative to an oracle for encoding/json's scanner. "
+                  "protoDecoder returns, for EVERY byte string, read schedule, error-delivery mode and ending, the schedule-free whole-stream parse; "
+                  "hence exactly the written message sequence for all message lists, unexpected EOF for every cut inside a prefix or body, an oversize "
+                  "rejection with the source exactly past the prefix and no buffer above max(4, limit) ever made, and the exact progress counts when "
+                  "the peer stalls. Writer side: whatever the point at which the writer fails, the wire carries a prefix of the proper stream, and "
+                  "encode -> decode gives back the first k messages unchanged with a clean end iff the failure fell between frames (both directions). "
+                  "JSON variant (round trip, every cut point, every ending, failing writer, schedule independence for every byte string) proved "
+                  "relative to an oracle for encoding/json's scanner; unconditional for the bracket scanner the model is run with. "
                   "The model is tied to the Go code by a bounded-exhaustive plus random differential run on every check.")
-    level_note = ("Trusted: Coq kernel, extraction, OCaml driver, harness and scripted reader; model-to-code correspondence is sampled "
-                  "(all read compositions of streams <= 12/14 bytes), not proved. The timer/goroutine mechanics are modelled as 'a read that "
-                  "blocks for ever yields the timeout outcome'; that the error arrives *within* the period is only checked with a coarse upper bound. "
-                  "protoDecoder has no size limit at all (reference peers trust the runner): the limit clause is about ReadDelimitedMessage.")
+    level_note = ("Trusted: Coq kernel, extraction, OCaml driver, harness and scripted reader/writer; model-to-code correspondence is sampled "
+                  "(all read compositions of streams <= 12/14 bytes, every writer failure point of small streams), not proved. The timer/goroutine "
+                  "mechanics are modelled as 'a read that blocks for ever yields the timeout outcome'; that the error arrives *within* the period is "
+                  "only checked with a coarse upper bound (20 x the timeout). 'Before allocating' is a theorem about the model's buffer list and, on "
+                  "the Go side, the largest buffer handed to Read plus a TotalAlloc probe for oversize announcements >= 2 MiB above what was received. "
+                  "protoDecoder has no size limit at all (reference peers trust the runner): the limit clause is about ReadDelimitedMessage. "
+                  "Theorems named *_partial are relative to the JSON scanner oracle.")
     technique = "Coq proof by induction on the read loop (closed form independent of the schedule); differential model-vs-Go correspondence"
     go_timeout = 600
 
